@@ -29,6 +29,7 @@ COVER = [
     ("two-diagrams", [[[0.0, 1.0], [0.0, INF]], [[0.5, 2.0], [1.0, 1.5]]]),
     ("three-diagrams", [[[0.0, 2.0]], [[1.0, 3.0], [-1.0, 0.0]], [[0.5, 0.75], [2.0, INF], [2.0, 2.5]]]),
     ("far-from-origin", [[[100.0, 101.5], [100.5, INF], [102.0, 103.0]]]),
+    ("inf-born-late", [[[0.0, 1.0], [0.5, 2.0], [3.0, INF]], [[-4.0, INF], [0.25, 0.75]]]),
 ]
 MCOVER = [
     [[0.0, 1.0]],
@@ -189,6 +190,11 @@ def diagrams_case(case, ctx):
             return
         if y_inf is not None and not np.all(np.abs(off[~fin, 1] - y_inf) <= 1e-6 * max(1.0, abs(y_inf))):
             ctx.violation("inf-line", "an infinite death is not drawn on the infinity line", observed=off.tolist(), expected=y_inf, extra=ex)
+        # points with infinite death sit on the infinity line INSIDE the axes: their birth must be visible too
+        if opt["xy_range"] is None and (~fin).any():
+            xb = off[~fin, 0]
+            if xb.min() < min(xlim) - 1e-9 or xb.max() > max(xlim) + 1e-9:
+                ctx.violation("limits", "a point with infinite death is drawn outside the x-limits", observed=list(xlim), expected=xb.tolist(), extra=ex)
         # limits contain every finite point unless an explicit range is requested
         if opt["xy_range"] is None and fin.any():
             if off[fin, 0].min() < min(xlim) - 1e-9 or off[fin, 0].max() > max(xlim) + 1e-9 or off[fin, 1].min() < min(ylim) - 1e-9 or off[fin, 1].max() > max(ylim) + 1e-9:
